@@ -453,7 +453,7 @@ func main() {
 	w.Extra["exhaustive_scope"] = fmt.Sprintf("every strobe pattern of 1..4 strobes with gaps from {0.3w, 0.6w, 1.8w, 3w}, windows %v us, with a listening consumer and with polling only", windows)
 
 	// Seeded random scenarios.
-	nRandom := 520
+	nRandom := 420
 	if cfg.Thorough() {
 		nRandom = 9000
 	}
